@@ -386,7 +386,13 @@ def check_field(a, p, fname, val, ex, add, key0, stats, gram, by_nt, facts, node
     m = re.match(r"present\((.*)\)$", ex)
     if m:
         i = find_sym(syms, m.group(1))
-        ok = i is not None and got == ("is_some", L(a, i))
+        ok = i is not None and got in (("is_some", L(a, i)), ("not", ("is_none", L(a, i))))
+        if i is not None and not ok and isinstance(val, Const) and val.kind == "bool":
+            # decided by a match on the optional symbol (matches!(x, Some(_)), if let ...): a constant per path
+            cvp = cm.get(("variant", L(a, i)))
+            if cvp is None:
+                cvp = {True: "Some", False: "None"}.get(cm.get(("is_some", L(a, i))))
+            ok = cvp in ("Some", "None") and val.v == (cvp == "Some")
         emit(ok, "must be true exactly when %s is present; extracted %s" % (m.group(1), fmt_label(got)), sample={"field": fkey, "value": fmt_label(got)})
         return
     m = re.match(r"join\((.),(.*)\)$", ex)
